@@ -218,6 +218,8 @@ class Anchors:
         txf, mvw = self.roles.get('tx-free-role'), self.roles.get('map-view')
         dw = [f for f in self._methods_of('InnerBucket') if txf in cg.get(f, ()) and mvw in cg.get(f, ())]
         self._set('delete-walk', self._unique(dw, 'delete_bucket'), 'InnerBucket method that frees pages it finds through the map view')
+        sr = [f for f in F.fns if f.kind != 'Closure' and f.locals[0]['ty'].startswith('(bool, std::vec::Vec<') and 'SearchPath' in f.locals[0]['ty']]
+        self._set('search-role', sr[0] if len(sr) == 1 else None, 'function returning (exact-match flag, descent stack)')
         self._set('resize-role', self._unique([f for f in self._methods_of('DBInner') if any(
             c and strip_generics(c['path']).endswith('FileExt::allocate') for _, _, _, c in F.call_sites(f))], 'resize'),
             'DBInner method calling FileExt::allocate')
